@@ -1,2 +1,298 @@
+'''C11 part (e): References (elementseq) and PointsSequence (pointsseq) as state spaces.
+
+A state is a live container plus a python list of its items.  Operations
+take / compress / slice / chain / repeat / product / children / edges are
+applied to both; afterwards len / bool / iter / get / getitem / out-of-range /
+ndims / npoints / tri / hull are compared with the list.
+'''
+
+import json
+import numpy
+
+MAXLEN = {'quick': 40, 'thorough': 80}
+MAXDEPTH = 3
+REF_BASES = ['u1', 'u2', 'p2', 'p2b', 'e1', 'p1']
+PTS_BASES = ['gu1', 'gp2', 'bp2', 'bu2', 'gp1']
+
+
+def _refs():
+    from nutils import element
+    line = element.LineReference()
+    tri = element.TriangleReference()
+    return line, tri, line * line
+
+
+def build(cls, name):
+    'returns (container, list model)'
+    from nutils import elementseq, pointsseq
+    line, tri, sq = _refs()
+    R = elementseq.References
+    if cls == 'References':
+        items, nd = {'u1': ([line] * 3, 1), 'u2': ([sq] * 2, 2), 'p2': ([tri, sq, tri], 2), 'p2b': ([sq, tri], 2), 'e1': ([], 1), 'p1': ([line, line.empty, line], 1)}[name]
+        return R.from_iter(items, nd), list(items)
+    refs, nd, scheme, degree = {'gu1': ([line] * 3, 1, 'gauss', 2), 'gp2': ([tri, sq, tri], 2, 'gauss', 1), 'bp2': ([tri, sq, sq], 2, 'bezier', 2),
+                                'bu2': ([sq] * 2, 2, 'bezier', 2), 'gp1': ([line, line, line], 1, 'gauss', 1)}[name]
+    items = [r.getpoints(scheme, degree if not (name == 'gp1' and i == 1) else 3) for i, r in enumerate(refs)]
+    return pointsseq.PointsSequence.from_iter(items, nd), items
+
+
+def other(cls, ndims):
+    'a fixed second operand for chain / product'
+    from nutils import elementseq, pointsseq
+    line, tri, sq = _refs()
+    if cls == 'References':
+        items = {1: [line, line], 2: [sq, tri, tri]}.get(ndims)
+        if items is None:
+            return None
+        return elementseq.References.from_iter(items, ndims), items
+    items = {1: [line.getpoints('gauss', 1), line.getpoints('gauss', 2)], 2: [sq.getpoints('bezier', 2), tri.getpoints('bezier', 2), tri.getpoints('bezier', 2)]}.get(ndims)
+    if items is None:
+        return None
+    return pointsseq.PointsSequence.from_iter(items, ndims), items
+
+
+def factor(cls):
+    'operands for product: a uniform and a plain 1-D sequence'
+    from nutils import elementseq, pointsseq
+    line, tri, sq = _refs()
+    if cls == 'References':
+        return [(elementseq.References.uniform(line, 2), [line, line]), (elementseq.References.from_iter([line, line.empty], 1), [line, line.empty])]
+    a, b = line.getpoints('gauss', 1), line.getpoints('gauss', 2)
+    return [(pointsseq.PointsSequence.uniform(a, 2), [a, a]), (pointsseq.PointsSequence.from_iter([a, b], 1), [a, b])]
+
+
+def index_arrays(n):
+    out = [('sorted', [])]
+    if n >= 1:
+        out += [('sorted', [0]), ('sorted', [n - 1])]
+    if n >= 2:
+        out += [('unsorted', [n - 1, 0]), ('unsorted', list(range(n))[::-1]), ('repeated', [0, 0, 1]), ('sorted', list(range(0, n, 2))), ('unsorted', list(range(1, n)) + [0])]
+    if n >= 3:
+        out += [('sorted', [0, n - 1]), ('sorted', list(range(1, n)))]
+    res = []
+    for k, a in out:
+        if all(a != b for _, b in res):
+            res.append((k, a))
+    return res
+
+
+def bool_masks(n):
+    out = [[i % 2 == 0 for i in range(n)], [i == 0 for i in range(n)], [True] * n, [False] * n, [i != 0 for i in range(n)]]
+    res = []
+    for m in out:
+        if m not in res:
+            res.append(m)
+    return res
+
+
+def operations(cls, model, ndims, depth, tier):
+    n = len(model)
+    ops = []
+    ia, bm = index_arrays(n), bool_masks(n)
+    if depth >= 1 and tier == 'quick':
+        ia = [x for x in ia if x[1]][:4] + ia[:1]
+        bm = bm[:2]
+    ops += [['take', k, a] for k, a in ia]
+    ops += [['compress', m] for m in bm]
+    ops += [['slice', s] for s in ([1, None, None], [None, None, -1], [None, None, 2], [None, -1, None])]
+    ops += [['chain', w] for w in ('self', 'other', 'other-left', 'revcopy')]
+    ops += [['repeat', k] for k in (0, 2, 3)]
+    if ndims <= 2:
+        ops += [['product', i, side] for i in (0, 1) for side in ('right', 'left') if ndims <= 1 or side == 'right']
+    if cls == 'References':
+        ops.append(['children'])
+        if ndims >= 1:
+            ops.append(['edges'])
+    return ops
+
+
+def apply_op(cls, obj, model, op):
+    'returns (obj2, model2) or None if not applicable'
+    k = op[0]
+    if k == 'take':
+        return obj.take(numpy.array(op[2], dtype=int)), [model[i] for i in op[2]]
+    if k == 'compress':
+        return obj.compress(numpy.array(op[1], dtype=bool)), [x for x, m in zip(model, op[1]) if m]
+    if k == 'slice':
+        return obj[slice(*op[1])], model[slice(*op[1])]
+    if k == 'chain':
+        if op[1] == 'self':
+            return obj.chain(obj), model + model
+        if op[1] == 'revcopy':  # the reversed operand is built from the list model, not with obj[::-1]
+            if len(model) < 2:
+                return None
+            from nutils import elementseq, pointsseq
+            rev = (elementseq.References if cls == 'References' else pointsseq.PointsSequence).from_iter(model[::-1], obj.ndims)
+            return obj.chain(rev), model + model[::-1]
+        o = other(cls, obj.ndims)
+        if o is None:
+            return None
+        return (obj.chain(o[0]), model + o[1]) if op[1] == 'other' else (o[0].chain(obj), o[1] + model)
+    if k == 'repeat':
+        return obj.repeat(op[1]), model * op[1]
+    if k == 'product':
+        f, fm = factor(cls)[op[1]]
+        if op[2] == 'right':
+            return obj.product(f), [a * b for a in model for b in fm]
+        return f.product(obj), [a * b for a in fm for b in model]
+    if k == 'children':
+        return obj.children, [c for r in model for c in r.child_refs]
+    if k == 'edges':
+        return obj.edges, [c for r in model for c in r.edge_refs]
+    raise ValueError(op)
+
+
+def opname(op):
+    if op[0] == 'take':
+        return 'take-' + op[1]
+    if op[0] == 'slice':
+        return 'take-unsorted' if op[1][2] == -1 else 'slice'  # a reversed slice is documented to be take(arange(n-1,-1,-1))
+    if op[0] in ('chain', 'product'):
+        return op[0] + '-' + str(op[-1] if op[0] == 'product' else op[1])
+    return op[0]
+
+
+def observe(cls, obj, model, ndims):
+    'returns None or (what-kind, description)'
+    n = len(model)
+    try:
+        if len(obj) != n:
+            return 'len', 'len = {} but the list model has {} items'.format(len(obj), n)
+        if bool(obj) != bool(n):
+            return 'bool', 'bool = {} for length {}'.format(bool(obj), n)
+        if obj.ndims != ndims:
+            return 'ndims', 'ndims = {} expected {}'.format(obj.ndims, ndims)
+        it = list(obj)
+        if len(it) != n or any(a != b for a, b in zip(it, model)):
+            bad = [i for i, (a, b) in enumerate(zip(it, model)) if a != b]
+            return 'iter', 'iter yields {} items; differs from the list model at positions {}: got {} expected {}'.format(len(it), bad[:6], [str(it[i]) for i in bad[:3]], [str(model[i]) for i in bad[:3]])
+        for i in range(n):
+            for j in (i, i - n):
+                if obj.get(j) != model[i]:
+                    return 'get', 'get({}) = {} but the list model says {}'.format(j, obj.get(j), model[i])
+                if obj[j] != model[i]:
+                    return 'getitem', '[{}] = {} but the list model says {}'.format(j, obj[j], model[i])
+        for j in (n, -n - 1):
+            try:
+                got = obj.get(j)
+            except IndexError:
+                pass
+            else:
+                return 'get-oob', 'get({}) on length {} returned {} instead of raising IndexError'.format(j, n, got)
+        if cls == 'References':
+            if obj.isuniform and any(r != model[0] for r in model):
+                return 'isuniform', 'isuniform is True but the items differ'
+        else:
+            np_ = sum(p.npoints for p in model)
+            if obj.npoints != np_:
+                return 'npoints', 'npoints = {} but the items have {} points'.format(obj.npoints, np_)
+            if model and all(type(p).__name__ in ('TransformPoints', 'TensorPoints', 'SimplexBezierPoints', 'ConcatPoints') for p in model):
+                try:
+                    tris = [numpy.asarray(p.tri) for p in model]
+                    hulls = [numpy.asarray(p.hull) for p in model]
+                except Exception:
+                    tris = None
+                if tris is not None:
+                    off = numpy.cumsum([0] + [p.npoints for p in model])
+                    etri = numpy.concatenate([t + o for t, o in zip(tris, off)])
+                    ehull = numpy.concatenate([t + o for t, o in zip(hulls, off)])
+                    if numpy.asarray(obj.tri).tolist() != etri.tolist():
+                        return 'tri', 'tri differs from the concatenation of the items\' triangulations'
+                    if numpy.asarray(obj.hull).tolist() != ehull.tolist():
+                        return 'hull', 'hull differs from the concatenation of the items\' hulls'
+    except Exception as e:
+        return 'raise:' + type(e).__name__, 'observation raised {!r}'.format(e)
+    return None
+
+
 def shards(tier):
-    return []
+    out = []
+    for cls, bases in (('References', REF_BASES), ('PointsSequence', PTS_BASES)):
+        for b in bases:
+            out.append({'kind': 'cont', 'cls': cls, 'base': b})
+    return out
+
+
+def run(spec, tier, res):
+    cls, base = spec['cls'], spec['base']
+    obj, model = build(cls, base)
+    seen = {}
+    keep = []
+    bad = observe(cls, obj, model, obj.ndims)
+    res.count('evaluations')
+    if bad:
+        res.violation('cont:{}:base:{}:{}'.format(cls, type(obj).__name__, bad[0]), 'base {}: {}'.format(base, bad[1]), {'kind': 'cont', 'cls': cls, 'base': base, 'ops': []})
+        return
+    res.count('states')
+
+    def explore(obj, model, ndims, ops, depth):
+        for op in operations(cls, model, ndims, depth, tier):
+            ops2 = ops + [op]
+            w = {'kind': 'cont', 'cls': cls, 'base': base, 'ops': ops2}
+            recv = type(obj).__name__
+            try:
+                r = apply_op(cls, obj, model, op)
+            except Exception as e:
+                res.violation('cont:{}:{}:{}:raise:{}'.format(cls, opname(op), recv, type(e).__name__), 'base {} ops {}: operation raised {!r}'.format(base, ops2, e), w)
+                continue
+            if r is None:
+                continue
+            obj2, model2 = r
+            res.count('transitions')
+            res.count('traces_validated_against_impl')
+            nd2 = model2[0].ndims if model2 else obj2.ndims
+            if op[0] == 'product':
+                nd2 = ndims + 1
+            elif op[0] == 'edges':
+                nd2 = ndims - 1
+            else:
+                nd2 = ndims
+            key = id(obj2)
+            keep.append(obj2)
+            if key in seen:
+                if seen[key] != len(model2):
+                    res.violation('cont:{}:{}:{}:confluence'.format(cls, opname(op), recv), 'base {} ops {}: same interned object for different contents'.format(base, ops2), w)
+                continue
+            seen[key] = len(model2)
+            res.count('evaluations', 1 + len(model2))
+            bad = observe(cls, obj2, model2, nd2)
+            if bad:
+                res.violation('cont:{}:{}:{}:{}'.format(cls, opname(op), recv, bad[0]), 'base {} ops {}: {}'.format(base, ops2, bad[1]), w)
+                continue
+            res.count('states')
+            res.distinct('state_kinds', cls + ':' + type(obj2).__name__)
+            res.maximum('max_container_length', len(model2))
+            if model2:
+                res.distinct('distinct_nontrivial', json.dumps([cls, base, ops2]))
+            if len(res.samples) < 1 and depth == 1 and len(model2) > 2:
+                res.sample({'part': 'cont', 'cls': cls, 'base': base, 'ops': ops2, 'len': len(model2), 'type': type(obj2).__name__})
+            if depth + 1 < MAXDEPTH and len(model2) <= MAXLEN[tier]:
+                explore(obj2, model2, nd2, ops2, depth + 1)
+
+    explore(obj, model, obj.ndims, [], 0)
+
+
+def replay(w):
+    cls = w['cls']
+    obj, model = build(cls, w['base'])
+    ndims = obj.ndims
+    bad = observe(cls, obj, model, ndims)
+    if bad:
+        return 'base: {}'.format(bad[1])
+    for k, op in enumerate(w['ops']):
+        recv = type(obj).__name__
+        try:
+            r = apply_op(cls, obj, model, op)
+        except Exception as e:
+            return 'cont:{}:{}:{}: operation {} raised {!r}'.format(cls, opname(op), recv, op, e)
+        if r is None:
+            return None
+        obj, model = r
+        if op[0] == 'product':
+            ndims += 1
+        elif op[0] == 'edges':
+            ndims -= 1
+        bad = observe(cls, obj, model, ndims)
+        if bad:
+            return 'cont:{}:{}:{}:{}: after {}: {}'.format(cls, opname(op), recv, bad[0], w['ops'][:k + 1], bad[1])
+    return None
